@@ -212,6 +212,11 @@ class _ReadSourceGenerator:
 
             # Everything else - basic and composite types (and arrays of them)
             else:
+                if not current_block and field.offset is not None and field.offset != current_offset:
+                    # The block doesn't start where the previous field ended (alignment or a set offset), seek to it
+                    yield f"stream.seek(o + {field.offset})"
+                    current_offset = field.offset
+
                 current_block.append(field)
 
             if current_offset is not None and size is not None and (not field.bits or bits_rollover):
